@@ -194,6 +194,9 @@ def window(chk, prog):
     g = [g for o, g, b in seen if o == "pop_front"]
     pb = [b for o, g, b in seen if o == "push_back"]
     pf = [b for o, g, b in seen if o == "pop_front"]
+    if pb:
+        # every call records its sample: the append is reached on every path from the entry (no guard turns a sample away)
+        chk.ob("R-ORDER", TS + "add_timing", reaches_before(fn, 0, pb[0]), "every call appends its sample (no path returns without the push_back)", fn.where(), key="always-appends")
     if okops and maxc is not None:
         # append-then-trim: the pop needs len > MAX; evict-then-append: the pop needs len >= MAX and must come first on every path
         append_first = fn.dominates(pb[0], pf[0])
